@@ -91,6 +91,14 @@ Theorem C16_no_alias : forall r st k w' st',
 Proof. exact records_container_not_aliased. Qed.
 Print Assumptions C16_no_alias.
 
+(* -- the same for a caller's own CSVWriter that retains the slices it is handed (a container that does not copy):
+   unless the caller asked for ReuseRecord, no two of them share a buffer and no later Read can change them *)
+Theorem C16_handed_records_private : forall r st k w' st', reader_reuses r = false ->
+  pipe_csv_with false (WTable []) r st k = PDone w' st' ->
+  shares_buffer (wtr_rows w') = false /\ (forall later, w_records w' later = w_records w' st').
+Proof. exact handed_records_private. Qed.
+Print Assumptions C16_handed_records_private.
+
 (* -- the model's outcome satisfies, on every input, the predicate that the correspondence run evaluates on the
    implementation's observable (so a case with equal observables cannot fail the property) *)
 Theorem C16_model_meets_check_predicate : forall parse render o d text,
